@@ -287,7 +287,7 @@ def run(facts, rep, tier):
                     if not ok:
                         rep.add(Finding("R10.6", "BDS1,7 flag %s" % k, "capability flag %s is taken from bits %s, expected bit %d" % (k, sorted(fd) if fd is not None else None, bit), None))
     rep.instances("R10.5", n5, floor=5, what="forced-valid register contexts")
-    rep.instances("R10.6", n6, floor=20, what="field decodes checked")
+    rep.instances("R10.6", n6, floor=10, what="field decodes checked")
     rep.extra["contexts"] = len(B)
     rep.assumptions += [
         "BDS1,7: reserved bits are MB 29-56 (message bits 61-88), as coded and as in common decoders",
